@@ -35,6 +35,7 @@ impl Engine for C06 {
             mega_1_in: 0,
             twin_mega_1_in: 0,
             many_1_in: 1500,
+            overflow_top_w: 1,
         };
         let mut records = g.gen(rng);
         // sometimes a few very long records so that lines straddle the 8 KiB
